@@ -1,1 +1,53 @@
-Definition placeholder := 0.
+(* C06 -- Byte input is decoded with the encoding the documented precedence selects (PARTIAL). *)
+From Coq Require Import NArith List Bool.
+From Verif Require Import Sx Str Tok.
+From Verif.Gen Require Import Encodings.
+From Verif.Model Require Import C06.
+From Verif.Proofs Require Import C06.
+Import ListNotations.
+Local Open Scope N_scope.
+
+(* for ALL argument values: the encoding chosen is the first of BOM, override, transport, meta prescan,
+   same-origin parent (unless UTF-16), likely, default, windows-1252 that yields an encoding, and it is
+   "certain" exactly for the first three *)
+Theorem c06_precedence : forall bom a meta, determine bom a meta = first_some (chain bom a meta).
+Proof. exact determine_is_first_some. Qed.
+Theorem c06_certain_iff : forall bom a meta, snd (determine bom a meta) = certain_source bom a.
+Proof. exact certain_iff. Qed.
+Theorem c06_source_order_from_source : 
+  determine_order = [(0, true); (1, true); (2, true); (3, false); (4, false); (5, false); (6, false)].
+Proof. exact source_order_from_ast. Qed.
+
+(* a certain encoding is never changed by document content *)
+Theorem c06_certain_independent_of_content : forall bom a m1 m2,
+  certain_source bom a = true -> determine bom a m1 = determine bom a m2.
+Proof. exact certain_independent_of_content. Qed.
+
+(* UTF-16: a parent encoding of that family is skipped; a <meta> declaring it means UTF-8 *)
+Theorem c06_parent_never_utf16 : forall a e, parent_filtered a = Some e -> is_utf16 e = false.
+Proof. exact parent_never_utf16. Qed.
+Theorem c06_meta_utf16_is_utf8 : forall raw e,
+  detect_meta raw = Some e -> str_eqb e utf16le || str_eqb e utf16be = false.
+Proof. exact meta_never_utf16. Qed.
+
+(* the prescan reads only the first 1024 bytes *)
+Theorem c06_prescan_window : forall raw, detect_meta raw = detect_meta (firstn (N.to_nat numBytesMeta) raw).
+Proof. exact prescan_window. Qed.
+Theorem c06_window_is_1024 : numBytesMeta = 1024.
+Proof. exact window_is_1024. Qed.
+
+(* every label of the table resolves to its encoding *)
+Theorem c06_all_labels_resolve :
+  forallb (fun e => match lookup (fst e) with Some n => str_eqb n (snd e) | None => false end) LABELS = true.
+Proof. exact all_labels_resolve. Qed.
+
+(* PARTIAL: the prescan mini-parser itself (Model/C06.v: prescan) is a transcription tied to the code by
+   exact-agreement correspondence; its agreement with the standard's prescan is decided by the search oracle
+   (standard's algorithm with six recorded deviations), not by a theorem; the late-<meta> reparse is not modelled. *)
+
+(* non-vacuity *)
+Example c06_example :
+  prescan [60;109;101;116;97;32;99;104;97;114;115;101;116;61;107;111;105;56;45;114;62] = Some [107;111;105;56;45;114] /\
+  determine None {| a_override := None; a_transport := Some [85;84;70;45;56]; a_parent := None; a_likely := None; a_default := None |}
+            (Some [107;111;105;56;45;114]) = (utf8, true).
+Proof. split; vm_compute; reflexivity. Qed.
